@@ -59,6 +59,10 @@ func init() {
 				res.Evaluations++
 				kk := key{r.pickStr(premiumPeers), 1 + r.intn(2), 1 + r.intn(2)}
 				rate := int64(r.intn(2000001)) - 1000000
+				if r.intn(3) == 0 {
+					// boundary rates: zero (a configured "no premium" is a rate, not a missing one), the built-in defaults
+					rate = r.pickI64([]int64{0, 0, 0, 1, -1, 2000, 1000})
+				}
 				a, o := premium.AssetType(kk.a), premium.OperationType(kk.o)
 				switch r.intn(8) {
 				case 0, 1:
